@@ -3,8 +3,9 @@ The operation machine of the `binops` correspondence stream (C03, C04): one `Bin
 reader cursor, one writer cursor; an `Op` is one public call of `src/bin_archive.rs` /
 `src/bin_streams.rs`.  `Sys.step` is what the driver runs and what the history theorems are about.
 On `Err` the Rust methods return before mutating `self`, so the state is returned unchanged — with
-the two exceptions the Rust has: `BinArchiveReader::read_bytes` / `read_shift_jis_string` leave the
-cursor after the bytes they could read, `BinArchiveWriter::write_bytes` keeps the bytes it wrote.
+the one exception the Rust has: `read_shift_jis_string` on a `BinArchiveReader` leaves the cursor
+after the bytes it could read (it is not a cell access; since fix D19 `read_bytes` / `write_bytes`
+of the streams fail without side effects).
 -/
 import MilaModel.Model.BinStreams
 import MilaModel.Spec.BinOp
